@@ -47,10 +47,16 @@ OPTS_ALL = [dict(post_check=a, compress=b, delete_original=c) for a in (True, Fa
 
 
 class ConvModel(object):
+    depth_now = 0
+
     def __init__(self, kind, tier, source="bin"):
         self.kind = kind
         self.tier = tier
         self.source = source
+
+    @staticmethod
+    def info_key(info):
+        return "+completed" if info.get("completed") else ""
 
     # ---------------------------------------------------------------- initial state
     def initial(self):
@@ -109,7 +115,7 @@ class ConvModel(object):
                     return f
         return None
 
-    def _run(self, root, event, crash_at):
+    def _run(self, root, event, crash_at, kind="kill"):
         target = self._target(root, event)
         if target is None:
             return None, None
@@ -119,7 +125,7 @@ class ConvModel(object):
                  (neuropixel.NP2Converter, "compress_NP21", "compress21"), (neuropixel.NP2Converter, "delete_NP24", "delete"),
                  (mtscomp.Writer, "_compress_chunk", "compress-chunk"), (mtscomp.Reader, "_decompress_chunk", "decompress-chunk")]
         obs = dict(status=None, exc=None)
-        with faults.watch(root, crash_at=crash_at, steps=steps) as w:
+        with faults.watch(root, crash_at=crash_at, steps=steps, kind=kind) as w:
             try:
                 if event.get("again") is None:
                     status, conv = np2.convert(target, nwindow=NWINDOW, overwrite=event["overwrite"], post_check=event["post_check"],
@@ -145,6 +151,8 @@ class ConvModel(object):
         gc.collect()
         if w.crashed:
             obs["status"] = "crashed"
+        elif kind == "error" and w.fired:
+            obs["status"] = "io-error:%s" % ("raised" if obs["exc"] else "absorbed:%s" % obs["status"])
         return obs, w
 
     # ---------------------------------------------------------------- invariants on a directory
@@ -290,14 +298,15 @@ class ConvModel(object):
         runs = [(None, obs, w.log)]
         seen_local = {}
 
-        def record(crash, obs, log):
+        def record(crash, obs, log, fault=None):
             snap2 = histories.snapshot(root)
             c2 = histories.canon(snap2)
             viol = []
             sv, have_orig, how = self.check_state(root, info)
             viol += sv
             info2 = dict(info)
-            ctx = "%s after %s%s" % (self.kind, _evstr(event), "" if crash is None else " killed before point %d (%s)" % (crash, log[crash] if crash < len(log) else "?"))
+            ctx = "%s after %s%s" % (self.kind, _evstr(event), "" if crash is None else " %s point %d (%s)" % (
+                "with an I/O error injected at" if fault == "error" else "killed before", crash, log[crash] if crash < len(log) else "?"))
             if not have_orig and pre_have_orig:
                 # the original disappeared in this transition
                 legit = (event["delete_original"] and event["post_check"] and self.kind.startswith("NP2.4") and event["target"] == "orig")
@@ -343,9 +352,9 @@ class ConvModel(object):
                         viol.append(("S3:first-run", "%s: a run that reports success leaves: %s" % (ctx, "; ".join(prob[:3]))))
             else:
                 info2["completed"] = False
-            first = c2 not in seen_local
-            seen_local[c2] = True
-            out.append(dict(event=event, crash=crash, obs=obs, canon=c2, snap=snap2 if first else None, info=info2, violations=viol, points=K))
+            first = (c2, info2["completed"]) not in seen_local
+            seen_local[(c2, info2["completed"])] = True
+            out.append(dict(event=event, crash=crash, fault=fault, obs=obs, canon=c2, snap=snap2 if first else None, info=info2, violations=viol, points=K))
 
         record(None, obs, w.log)
         if fault_budget >= 1:
@@ -355,7 +364,16 @@ class ConvModel(object):
                 if not wk.crashed:
                     raise HarnessError("crash point %d of %d was never reached when replaying %s: the run is not deterministic (%r vs %r)"
                                        % (k, K, _evstr(event), wk.log[:k + 1][-3:], w.log[:k + 1][-3:]))
-                record(k, obs_k, w.log)
+                record(k, obs_k, w.log, "kill")
+            # the same points with an I/O error (an ordinary exception: the converter's own handlers run) instead of a kill;
+            # only the state invariants I1/I2 are asserted on what such a run leaves behind
+            if self.tier == "thorough" or (self.depth_now == 0 and event.get("again") is None):
+                for k in range(K):
+                    histories.restore(root, snap)
+                    obs_k, wk = self._run(root, event, k, kind="error")
+                    if not wk.fired:
+                        raise HarnessError("fault point %d of %d was never reached when replaying %s: the run is not deterministic" % (k, K, _evstr(event)))
+                    record(k, obs_k, w.log, "error")
         return out
 
 
@@ -391,22 +409,23 @@ def _replay(case):
         kind, source = kind[:-5], "cbin"
     if kind.endswith("-meta-shorter"):
         kind, source = kind[:-13], "meta-shorter"
-    model = ConvModel(kind, "quick", source)
+    model = ConvModel(kind, "thorough", source)
     (snap, info), = model.initial()
     root = os.path.join(synth.proc_scratch(), "c04_replay")
     viol = []
     for ev in case["history"]:
         crash = ev.get("crash")
-        event = {k: v for k, v in ev.items() if k != "crash"}
+        fault = ev.get("fault", "kill") if crash is not None else None
+        event = {k: v for k, v in ev.items() if k not in ("crash", "fault")}
         # expansion of exactly this event with the recorded crash point
         trans = model.expand(0, snap, info, event, 1 if crash is not None else 0)
-        sel = [t for t in trans if t["crash"] == crash]
+        sel = [t for t in trans if t["crash"] == crash and t.get("fault") == fault]
         if not sel:
             raise HarnessError("recorded transition not reproduced")
         t = sel[0]
         viol = t["violations"]
         histories.restore(root, snap)
-        model._run(root, event, crash)
+        model._run(root, event, crash, kind=fault or "kill")
         snap = histories.snapshot(root)
         info = t["info"]
     return Res(viol)
